@@ -111,6 +111,7 @@ struct lpmon {
 	int in_rb;
 	unsigned rb_past, rb_len_before;
 	int fossil_just;
+	unsigned fossils; /* fossil collections that shortened this LP's history so far */
 	int commit_off; /* stop comparing (mismatch already reported or beyond the reference horizon) */
 	uint64_t sig;
 	int init_done, fini_done;
@@ -491,6 +492,15 @@ void rs_verif_hook(unsigned point, const void *p, uint64_t a, uint64_t b)
 				for(uint64_t i = lid_thread_first; i < lid_thread_end; ++i)
 					if(!global_config.committed(i, lps[i].state_pointer))
 						vh_violation("C07", "voted-with-predicate-false", "thread %u voted for termination at GVT %a while LP %llu does not satisfy its predicate on its current state", rid, t->vote_gvt, (unsigned long long)i);
+			/* The vote claims that every LP of the thread is done on a state that can no longer be undone, i.e. that its predicate first held
+			 * at an event strictly below this GVT. Events below a GVT are committed, hence the same as in the sequential execution: the
+			 * sequential "first true" timestamp of every LP of a voting thread must be below the GVT of the vote. */
+			if(vh_cfg.monitors && vh_cfg.monotone_predicates && vh_cfg.ref_pred_ts && !global_config.serial && t->vote_gvt < global_config.termination_time)
+				for(uint64_t i = lid_thread_first; i < lid_thread_end; ++i) {
+					double pts;
+					if(vh_cfg.ref_pred_ts(i, &pts) && !(pts < t->vote_gvt))
+						vh_violation("C07", "voted-before-predicate-committed", "thread %u voted for termination at GVT %a while LP %llu first satisfies its predicate at timestamp %a in the sequential execution (not below that GVT: the state it is done on can still be undone)", rid, t->vote_gvt, (unsigned long long)i, pts);
+				}
 			return;
 		}
 		/* ---------- queue ---------- */
@@ -837,6 +847,10 @@ void rs_verif_hook(unsigned point, const void *p, uint64_t a, uint64_t b)
 				t->c[VC_DEPTH_MAX] = depth;
 			lm->n = past < lm->n ? past : lm->n;
 			lm->in_rb = 0;
+			/* C13: a rollback that restores the oldest checkpoint fossil collection kept works on exactly what the collection left behind
+			 * (first kept checkpoint, re-based positions, start of the shortened history): anything wrong with it is also C13's business */
+			const int c13 = lm->fossils && ref == (lm->n_ck ? lm->ck[0] : 0);
+#define C13_ALSO(what) do { if(c13) vh_violation("C13", "rollback-into-oldest-kept-interval-wrong", "LP %llu: rollback to position %u of the history shortened by %u fossil collection(s), restoring the oldest kept checkpoint (reference %u): %s", (unsigned long long)(lp - lps), past, lm->fossils, ref, what); } while(0)
 			if(array_count(lp->p.p_msgs) != past)
 				vh_violation("C05", "history-not-truncated-to-target", "LP %llu rollback to %u left %u history entries", (unsigned long long)(lp - lps), past, (unsigned)array_count(lp->p.p_msgs));
 			/* checkpoint bookkeeping (shadow of the allocator's log list) */
@@ -869,6 +883,7 @@ void rs_verif_hook(unsigned point, const void *p, uint64_t a, uint64_t b)
 				struct shent *e = &lm->h[past - 1];
 				if(e->kind) {
 					vh_violation("C05", "rollback-target-splits-an-event", "LP %llu rollback target %u is not right after an event", (unsigned long long)(lp - lps), past);
+					C13_ALSO("the target is not right after an event (the event in front of it stays executed, its sends uncancelled)");
 					/* the entry right below the target is a message sent by an event that lies in the undone part: it was not cancelled */
 					vh_violation("C06", "undone-send-not-cancelled", "LP %llu rollback to %u: history entry %u is a message (id %llu) sent by an event of the undone part, and it stays uncancelled",
 					    (unsigned long long)(lp - lps), past, past - 1, (unsigned long long)e->id);
@@ -882,6 +897,8 @@ void rs_verif_hook(unsigned point, const void *p, uint64_t a, uint64_t b)
 				uint64_t got_a = allocated_bytes(lp);
 				uint64_t got_m = vh_cfg.state_digest(lp);
 				CNT(VC_RB_DIGEST_CHECKED);
+				if(got_m != want_m || got_a != want_a)
+					C13_ALSO("the state differs from the one that existed at that position");
 				if(got_m != want_m)
 					vh_violation("C05", "state-after-rollback-differs", "LP %llu: after rollback to history length %u (checkpoint %u + %u re-executed events) the state content differs from the one that existed at that point",
 					    (unsigned long long)(lp - lps), past, ref, coast);
@@ -986,6 +1003,7 @@ void rs_verif_hook(unsigned point, const void *p, uint64_t a, uint64_t b)
 						lm->ck[w++] = lm->ck[k] - n;
 				lm->n_ck = w;
 				lm->fossil_just = 1;
+				lm->fossils++;
 			}
 			if(array_count(lp->p.p_msgs) != lm->n)
 				vh_violation("C13", "history-shadow-mismatch-after-fossil", "LP %llu: history has %u entries after fossil collection, monitor expects %u", (unsigned long long)(lp - lps), (unsigned)array_count(lp->p.p_msgs), lm->n);
